@@ -180,22 +180,24 @@ def intNum (v : TokV) : Except ParseErr Num :=
     | some n => .ok { val := { coeff := n }, implicit := false, raw := s }
     | none => .error (numError v)
 
-/-- the semantic action named `f` applied to the values of the right-hand side -/
+/-- the semantic action named `f` applied to the values of the right-hand side. The token kinds are
+matched explicitly (the real functions index `p[i]` blindly; with tables whose right-hand sides are
+the ones of the docstrings they only ever see these kinds -- the correspondence runs cover this) -/
 def act (f : String) (vs : List Val) : Except ParseErr Val :=
   match f, vs with
-  | "p_expression_or", [.item a, .tok _ o, .item b] => .ok (.item (binaryOp .or a (some o.lay) b))
-  | "p_expression_and", [.item a, .tok _ o, .item b] => .ok (.item (binaryOp .and a (some o.lay) b))
+  | "p_expression_or", [.item a, .tok .orOp o, .item b] => .ok (.item (binaryOp .or a (some o.lay) b))
+  | "p_expression_and", [.item a, .tok .andOp o, .item b] => .ok (.item (binaryOp .and a (some o.lay) b))
   | "p_expression_implicit", [.item a, .item b] => .ok (.item (binaryOp .unk a none b))
-  | "p_expression_plus", [.tok _ o, .item e] => .ok (.item (mgrUnary o.lay e (.unary .plus)))
-  | "p_expression_minus", [.tok _ o, .item e] => .ok (.item (mgrUnary o.lay e (.unary .prohibit)))
-  | "p_expression_not", [.tok _ o, .item e] => .ok (.item (mgrUnary o.lay e (.unary .not)))
+  | "p_expression_plus", [.tok .plus o, .item e] => .ok (.item (mgrUnary o.lay e (.unary .plus)))
+  | "p_expression_minus", [.tok .minus o, .item e] => .ok (.item (mgrUnary o.lay e (.unary .prohibit)))
+  | "p_expression_not", [.tok .not o, .item e] => .ok (.item (mgrUnary o.lay e (.unary .not)))
   | "p_expression_unary", [v] => .ok v
-  | "p_grouping", [.tok _ lp, .item e, .tok _ rp] =>
+  | "p_grouping", [.tok .lparen lp, .item e, .tok .rparen rp] =>
     let (pos, size) := mgrPos [lp.lay, e.lay, rp.lay] true true
     let e1 := e.setHead (lp.lay.tail ++ e.head)
     let e2 := e1.setTail (e1.tail ++ rp.lay.head)
     .ok (.item (.group .group e2 { head := lp.lay.head, tail := rp.lay.tail, pos := pos, size := size }))
-  | "p_range", [.tok _ lb, .item lo, .tok _ to, .item hi, .tok _ rb] =>
+  | "p_range", [.tok .lbracket lb, .item lo, .tok .to to, .item hi, .tok .rbracket rb] =>
     let (pos, size) := mgrPos [lb.lay, lo.lay, to.lay, hi.lay, rb.lay] true true
     let lo1 := lo.setHead (lb.lay.tail ++ lo.head)
     let lo2 := lo1.setTail (lo1.tail ++ to.lay.head)
@@ -203,14 +205,14 @@ def act (f : String) (vs : List Val) : Except ParseErr Val :=
     let hi2 := hi1.setTail (hi1.tail ++ rb.lay.head)
     .ok (.item (.range lo2 hi2 (lb.value == some ['[']) (rb.value == some [']'])
       { head := lb.lay.head, tail := rb.lay.tail, pos := pos, size := size }))
-  | "p_possibly_negative_term", [.tok _ o, .item e] => .ok (.item (mgrUnary o.lay e (.unary .prohibit)))
+  | "p_possibly_negative_term", [.tok .minus o, .item e] => .ok (.item (mgrUnary o.lay e (.unary .prohibit)))
   | "p_possibly_negative_term", [v] => .ok v
   | "p_phrase_or_possibly_negative_term", [v] => .ok v
-  | "p_lessthan", [.tok _ o, .item e] =>
+  | "p_lessthan", [.tok .lessthan o, .item e] =>
     .ok (.item (mgrUnary o.lay e (fun a l => .orange .to a ((o.value.getD []).contains '=') l)))
-  | "p_greaterthan", [.tok _ o, .item e] =>
+  | "p_greaterthan", [.tok .greaterthan o, .item e] =>
     .ok (.item (mgrUnary o.lay e (fun a l => .orange .from a ((o.value.getD []).contains '=') l)))
-  | "p_field_search", [.item (.term _ name nl), .tok _ c, .item e] =>
+  | "p_field_search", [.item (.term .word name nl), .tok .column c, .item e] =>
     let e' := match e with
       | .group .group x l => Tree.group .fieldGroup x { l with name := none }
       | t => t
@@ -218,21 +220,21 @@ def act (f : String) (vs : List Val) : Except ParseErr Val :=
     .ok (.item (.field name (e'.setHead (c.lay.tail ++ e'.head))
       { head := nl.head, tail := [], pos := pos, size := size }))
   | "p_quoting", [v] => .ok v
-  | "p_proximity", [.item e, .tok _ a] =>
+  | "p_proximity", [.item e, .tok .approx a] =>
     match intNum a with
     | .ok n => .ok (.item (mgrPostUnary e a.lay (fun x l => .approx .proximity x n l)))
     | .error err => .error err
-  | "p_boosting", [.item e, .tok _ a] =>
+  | "p_boosting", [.item e, .tok .boost a] =>
     match decNum a { coeff := 1 } with
     | .ok n => .ok (.item (mgrPostUnary e a.lay (fun x l => .boost x n l)))
     | .error err => .error err
   | "p_terms", [v] => .ok v
-  | "p_fuzzy", [.item e, .tok _ a] =>
+  | "p_fuzzy", [.item e, .tok .approx a] =>
     match decNum a { coeff := 5, exp := -1 } with
     | .ok n => .ok (.item (mgrPostUnary e a.lay (fun x l => .approx .fuzzy x n l)))
     | .error err => .error err
   | "p_regex", [v] => .ok v
-  | "p_to_as_term", [.tok _ t] =>
+  | "p_to_as_term", [.tok .to t] =>
     let (pos, size) := mgrPos [t.lay] true true
     .ok (.item (.term .word (t.value.getD []) { head := t.lay.head, tail := t.lay.tail, pos := pos, size := size }))
   | "p_phrase_or_term", [v] => .ok v
